@@ -37,6 +37,7 @@ REQUIRED_COVER = ["copy_used_after_original_died", "set_ncomp_on_swc_copy_after_
 ASSUMPTIONS = ["eager CPU execution is deterministic, so identical modules give bit-identical integrate results"]
 SIG_INIT = False
 EXPAND_BROKEN_STATES = True
+FRESH_FROM_SCRATCH = True  # originals are built by the public API every time, never taken from a deep copy
 T = 3
 DT = 0.025
 
@@ -71,6 +72,10 @@ def _swc_cell():
     v = c.branch([nb - 2, nb - 1])
     v.add_to_group("alias_a")
     v.add_to_group("alias_b")
+    # the module itself added to two groups: the shared array comes straight from the node table's index (read-only in the original,
+    # writeable after a copy)
+    c.add_to_group("whole_a")
+    c.add_to_group("whole_b")
     return c
 
 
@@ -377,7 +382,7 @@ def check_state(init, hist, do_sim, do_grad):
             if "ncomp" in op and init == "swc_cell" and how == "pickle":
                 out["cover"].append("set_ncomp_on_unpickled_swc")
                 # the same operation on the original must give the same module (radius functions survived the round trip)
-                oo = copy.deepcopy(m)
+                oo = explorer.replay(mod, init, hist)  # the ORIGINAL route (not a copy of any kind)
                 try:
                     OPS[op](oo)
                     dd = canon.diff(canon.snapshot(oo), canon.snapshot(cc))
